@@ -8,3 +8,5 @@ def check(rep, tier):
     rules_scalar.run_kinks(rep, tier)
     from contracts import rules_exact
     rules_exact.run(rep, tier, rules_exact.CLAUSE_PROPS["C01"])
+    from contracts import rules_numeric
+    rules_numeric.run(rep, tier, clauses=('N-vjp',), only_complex='real-only')
